@@ -73,6 +73,13 @@ Proof.
     repeat (destruct HO as [? HO]); eauto.
 Qed.
 
+Lemma lookup_app_l :
+  forall {A} (l1 l2 : list (string * A)) x a, lookup x l1 = Some a -> lookup x (l1 ++ l2) = Some a.
+Proof.
+  intros A l1. induction l1 as [|[y b] l1 IH]; intros l2 x a H; [discriminate|].
+  cbn [lookup app] in *. destruct (String.eqb x y); [exact H|apply IH; exact H].
+Qed.
+
 Lemma rec_rel_lookup :
   forall d fs f1 f2 x T, rec_rel d fs f1 f2 -> lookup x fs = Some T ->
     exists t1 t2, lookup x f1 = Some t1 /\ lookup x f2 = Some t2 /\ lift (OR d T) t1 t2.
@@ -102,6 +109,7 @@ Proof.
   - destruct H as [q1 [x1 [b1 [q2 [x2 [b2 [H1 [H2 _]]]]]]]]. inversion H1; inversion H2; subst. repeat split.
   - destruct H as [l1 [l2 [H1 [H2 _]]]]. inversion H1; inversion H2; subst. repeat split.
   - destruct H as [f1 [f2 [H1 [H2 _]]]]. inversion H1; inversion H2; subst. repeat split.
+  - destruct H as [f1 [g1 [l [f2 [g2 [H1 [H2 _]]]]]]]. inversion H1; inversion H2; subst. repeat split.
 Qed.
 
 (* strict unary operation that does not evaluate anything itself *)
@@ -427,29 +435,52 @@ Proof.
         -- destruct (OR_str_inv _ _ _ HO) as [z [E1 E2]]. subst. cbn [op1_sem]. apply OR_str.
       * apply (IHe _ _ Ha); assumption.
     + (* GetF *)
-      destruct Hty as [fs [Ha Hl]].
-      assert (IH : lift (OR d (SRec fs)) (Th p1 e) (Th p2 e)) by (apply (IHe _ _ Ha); assumption).
-      start n r2 Hev Hne. cbn [guard1] in Hev.
-      apply bind_inv in Hev; [|exact Hne].
-      assert (Han : ev n (Th p2 e) <> OutOfFuel).
-      { destruct Hev as [[v [Hgd _]]|[e0 [Hgd _]]]; eapply guard_inv; eauto; congruence. }
-      destruct (IH n _ eq_refl Han) as [m1 [r1 [Ha1 HO]]].
-      cbn [OR] in HO. destruct HO as [[e0 [Hr1 Hr2]]|[f1 [f2 [Hr1 [Hr2 Hrec]]]]].
-      * rewrite Hr2 in Hev. cbn [guard] in Hev.
-        destruct Hev as [[v [Hg _]]|[e' [Hg Hr]]]; [congruence|]. inversion Hg; subst e'.
-        exists (S m1), (Err e0). split.
-        -- rewrite ev_S. cbn [step guard1]. rewrite Ha1, Hr1. reflexivity.
-        -- rewrite Hr. apply OR_err.
-      * rewrite Hr2 in Hev. cbn [guard] in Hev.
-        destruct Hev as [[v [Hg Hb]]|[e' [Hg _]]]; [|congruence]. inversion Hg; subst v.
-        destruct (rec_rel_lookup d fs f1 f2 l T Hrec Hl) as [t1 [t2 [L1 [L2 Ht]]]].
-        cbn [op1_sem] in Hb. rewrite L2 in Hb.
-        destruct (Ht n r2 Hb Hne) as [m2 [r1' [Hb1 HO']]].
-        exists (S (m1 + m2)), r1'. split; [|exact HO'].
-        rewrite ev_S. cbn [step guard1].
-        rewrite (ev_mono m1 (m1 + m2) _ _ ltac:(lia) Ha1) by (rewrite Hr1; congruence).
-        rewrite Hr1. cbn [guard bind op1_sem]. rewrite L1.
-        apply (ev_mono m2 (m1 + m2) _ _ ltac:(lia) Hb1). eapply OR_terminates; eauto.
+      destruct Hty as [[fs [Ha Hl]]|[fs [ri [ex [Ha Hl]]]]].
+      * assert (IH : lift (OR d (SRec fs)) (Th p1 e) (Th p2 e)) by (apply (IHe _ _ Ha); assumption).
+        start n r2 Hev Hne. cbn [guard1] in Hev.
+        apply bind_inv in Hev; [|exact Hne].
+        assert (Han : ev n (Th p2 e) <> OutOfFuel).
+        { destruct Hev as [[v [Hgd _]]|[e0 [Hgd _]]]; eapply guard_inv; eauto; congruence. }
+        destruct (IH n _ eq_refl Han) as [m1 [r1 [Ha1 HO]]].
+        cbn [OR] in HO. destruct HO as [[e0 [Hr1 Hr2]]|[f1 [f2 [Hr1 [Hr2 Hrec]]]]].
+        -- rewrite Hr2 in Hev. cbn [guard] in Hev.
+           destruct Hev as [[v [Hg _]]|[e' [Hg Hr]]]; [congruence|]. inversion Hg; subst e'.
+           exists (S m1), (Err e0). split.
+           ++ rewrite ev_S. cbn [step guard1]. rewrite Ha1, Hr1. reflexivity.
+           ++ rewrite Hr. apply OR_err.
+        -- rewrite Hr2 in Hev. cbn [guard] in Hev.
+           destruct Hev as [[v [Hg Hb]]|[e' [Hg _]]]; [|congruence]. inversion Hg; subst v.
+           destruct (rec_rel_lookup d fs f1 f2 l T Hrec Hl) as [t1 [t2 [L1 [L2 Ht]]]].
+           cbn [op1_sem] in Hb. rewrite L2 in Hb.
+           destruct (Ht n r2 Hb Hne) as [m2 [r1' [Hb1 HO']]].
+           exists (S (m1 + m2)), r1'. split; [|exact HO'].
+           rewrite ev_S. cbn [step guard1].
+           rewrite (ev_mono m1 (m1 + m2) _ _ ltac:(lia) Ha1) by (rewrite Hr1; congruence).
+           rewrite Hr1. cbn [guard bind op1_sem]. rewrite L1.
+           apply (ev_mono m2 (m1 + m2) _ _ ltac:(lia) Hb1). eapply OR_terminates; eauto.
+      * (* a listed field of a record with a quantified tail *)
+        assert (IH : lift (OR d (SRow fs ri ex)) (Th p1 e) (Th p2 e)) by (apply (IHe _ _ Ha); assumption).
+        start n r2 Hev Hne. cbn [guard1] in Hev.
+        apply bind_inv in Hev; [|exact Hne].
+        assert (Han : ev n (Th p2 e) <> OutOfFuel).
+        { destruct Hev as [[v [Hgd _]]|[e0 [Hgd _]]]; eapply guard_inv; eauto; congruence. }
+        destruct (IH n _ eq_refl Han) as [m1 [r1 [Ha1 HO]]].
+        cbn [OR] in HO. destruct HO as [[e0 [Hr1 Hr2]]|[f1 [g1 [sl [f2 [g2 [Hr1 [Hr2 [Hrec Hrow]]]]]]]]].
+        -- rewrite Hr2 in Hev. cbn [guard] in Hev.
+           destruct Hev as [[v [Hg _]]|[e' [Hg Hr]]]; [congruence|]. inversion Hg; subst e'.
+           exists (S m1), (Err e0). split.
+           ++ rewrite ev_S. cbn [step guard1]. rewrite Ha1, Hr1. reflexivity.
+           ++ rewrite Hr. apply OR_err.
+        -- rewrite Hr2 in Hev. cbn [guard] in Hev.
+           destruct Hev as [[v [Hg Hb]]|[e' [Hg _]]]; [|congruence]. inversion Hg; subst v.
+           destruct (rec_rel_lookup d fs f1 f2 l T Hrec Hl) as [t1 [t2 [L1 [L2 Ht]]]].
+           cbn [op1_sem] in Hb. rewrite (lookup_app_l f2 g2 l t2 L2) in Hb.
+           destruct (Ht n r2 Hb Hne) as [m2 [r1' [Hb1 HO']]].
+           exists (S (m1 + m2)), r1'. split; [|exact HO'].
+           rewrite ev_S. cbn [step guard1].
+           rewrite (ev_mono m1 (m1 + m2) _ _ ltac:(lia) Ha1) by (rewrite Hr1; congruence).
+           rewrite Hr1. cbn [guard bind op1_sem]. rewrite L1.
+           apply (ev_mono m2 (m1 + m2) _ _ ltac:(lia) Hb1). eapply OR_terminates; eauto.
   - (* Op2 *)
     destruct o.
     + (* Add *) destruct Hty as [HT [Ha Hb]]. subst T.
